@@ -164,8 +164,26 @@ class C10(Prop):
             near = GV.struct(rng)
             probes = [GV.spell(rng, GV.neighbour(rng, near)) for _ in range(4)]
             yield ("eq_hash_behaviour", {"type": typ, "a": a, "b": b, "c": c, "probes": probes})
+            if i % 5 == 0:
+                yield ("foreign_operand", {"type": typ, "a": a, "b": b})
 
     def check_law(self, law, inp):
+        if law == "foreign_operand":
+            # Specifier and SpecifierSet accept a *string* operand in == / != and convert it: for a string that parses, the
+            # answer must be the one the parsed object gives, in both operand orders, and != must be its negation.
+            # (Operands of unrelated types and strings that do not parse are outside the property statement; observed:
+            # SpecifierSet(...) == "junk" raises InvalidSpecifier while Specifier(...) == "junk" is False — not checked.)
+            typ = inp["type"]
+            if typ not in ("Specifier", "SpecifierSet"):
+                return True, "no string operand for this type"
+            x = build(typ, inp["a"])
+            for text in (inp["b"], inp["a"]):
+                parsed = build(typ, text)
+                want = (x == parsed)
+                e1, e2, n1, n2 = (x == text), (text == x), (x != text), (text != x)
+                if not (e1 == e2 == want and n1 == n2 == (not want)):
+                    return False, f"{typ}({inp['a']!r}) vs the string {text!r}: ==:{e1}/{e2} !=:{n1}/{n2}, but == {typ}(text) is {want}"
+            return True, ""
         if law != "eq_hash_behaviour":
             raise KeyError(law)
         typ = inp["type"]
